@@ -39,7 +39,7 @@ def parts(obs):
 def kind_of(obs):
     if obs.startswith("end:"):
         return "end:" + ("PANIC" if "PANIC" in obs else "LEAKED" if "LEAKED" in obs else "refs")
-    for w in ("PANIC", "STUCK", "LEAKED"):
+    for w in ("PANIC", "STUCK", "LEAKED", "REUSE"):
         if w in obs:
             return w
     if obs == "":
@@ -56,7 +56,7 @@ def classify(run, case, impl, model):
 
 
 def crashed(impl):
-    return any(w in impl for w in ("PANIC", "STUCK", "LEAKED"))
+    return any(w in impl for w in ("PANIC", "STUCK", "LEAKED", "REUSE"))
 
 
 EXPLANATION = ("Theorems over ALL event lists (peer messages with arbitrary field values, application actions, in any "
